@@ -19,6 +19,9 @@ def prelude():
                   ("mg", fn((INT,), INT)), ("mt", iter_of(INT)), ("mr", fn((INT, INT), INT))):
         out.append(("fndecl", nm, [("k", INT), ("v", t)], t,
                     [("assign", "add", V("log"), ("array", [V("k")])), ("return", V("v"))]))
+    # a PROCEDURE (result type `()`) with an effect, and functions whose result type has a single value / is a union
+    out.append(("fndecl", "mv", [("k", INT)], ("void",), [("assign", "add", V("log"), ("array", [V("k")]))]))
+    out.append(("fndecl", "mu", [("k", INT), ("v", ("any",))], ("any",), [("assign", "add", V("log"), ("array", [V("k")])), ("return", V("v"))]))
     out.append(("fndecl", "hi", [("v", INT)], INT, [("return", V("v"))]))      # hides a constant from the folder
     out.append(("fndecl", "hb", [("v", BOOL)], BOOL, [("return", V("v"))]))
     out.append(("fndecl", "inc", [("v", INT)], INT, [("return", ("bin", "add", V("v"), I(1)))]))
@@ -73,6 +76,14 @@ def templates():
         T.append(P + [fin(("tuple", [m("mi", lit(1)), m("ms", ("s", "a")), m("mb", blit(True))]))])
         k[0] = 0
         T.append(P + [fin(("struct", [("b", m("mi", lit(1))), ("a", m("mi", lit(2))), ("c", m("mi", lit(3)))]))])
+        # `==` / `!=` whose operands have a type with ONE value (`()`), the same union, or `any`: the answer may be known from
+        # the types, the operands are evaluated all the same
+        for op in ("eq", "ne"):
+            T.append(P + [fin(("bin", op, ("call", V("mv"), [I(1)]), ("call", V("mv"), [I(2)])))])
+            T.append(P + [fin(("bin", op, ("call", V("mv"), [I(1)]), ("unit",)))])
+            T.append(P + [fin(("bin", op, ("call", V("mu"), [I(1), ("unit",)]), ("call", V("mu"), [I(2), lit(3)])))])
+            T.append(P + [fin(("bin", op, ("tuple", [("call", V("mv"), [I(1)]), lit(1)]), ("tuple", [("call", V("mv"), [I(2)]), lit(1)])))])
+            T.append(P + [("set", "r", ("bin", op, ("call", V("mv"), [I(1)]), ("call", V("mv"), [I(2)]))), fin(V("r"))])
         # the condition of an `if` used as a value is evaluated exactly once - also when both branches are the same constant,
         # written as bare expressions or as blocks
         for br in ((lit(7), lit(7)), (("s", "ab"), ("bin", "add", ("s", "a"), ("s", "b"))), (lit(1), lit(2))):
